@@ -50,6 +50,9 @@ def analyse(pid: str, root: Path | None = None) -> Result:
         # a floor miss next to reported violations is a consequence of the violation, not a vacuous pass
         if found < expected and not res.violations:
             raise AnalysisError(f"{pid} {rule}: only {found} instance(s) found, floor is {expected} (rule would pass vacuously)")
+    if res.undecided and not res.violations:
+        u = res.undecided[0]
+        raise AnalysisError(f"{pid} {u['rule']}: cannot classify `{u['construct']}` ({u['detail']}); {len(res.undecided)} undecided construct(s) - no verdict")
     return res
 
 
